@@ -147,7 +147,8 @@ Record WInv (hs : bool) (st : wstate) (w : world) (ss : list shape) : Prop := mk
   inv_shx : if hs
             then exists H, hfile H (index_from 50 ss) (bp_of (w_shx w)) /\ hdr_slot H (index_from 50 ss)
                  /\ (ws_dirty st = false -> H = header_bytes (final_shx_hdr ss) /\ d_flushed (w_shx w) = true)
-            else bp_of (w_shx w) = ([], 0%nat)
+            else bp_of (w_shx w) = ([], 0%nat);
+  inv_int : ws_interrupted st = false
 }.
 
 Lemma world0_wf : world_wf world0.
@@ -163,6 +164,7 @@ Proof.
   - exists []. split; [split; reflexivity|]. split; [left; split; reflexivity|]. cbn. intros; discriminate.
   - destruct hs; [|reflexivity]. exists []. split; [split; reflexivity|]. split; [left; split; reflexivity|].
     cbn. intros; discriminate.
+  - reflexivity.
 Qed.
 
 Lemma record_bytes_nonempty t i s : record_bytes t i s <> [].
@@ -230,8 +232,8 @@ Lemma write_accepted hs st w ss s :
   WInv hs st w ss -> type_of s <> TNull -> Forall (fun x => type_of x <> TNull) ss -> accepts_type ss s = true ->
   exists st' w', w_write_shape st w s = (Ok tt, st', w') /\ WInv hs st' w' (ss ++ [s]).
 Proof.
-  intros Inv Hs Hss Ha. destruct Inv as [Hwf Hh Hr Hhs (Hp & Hfp & Hsp & Hdp) Hx].
-  unfold w_write_shape, write_shape_plan. rewrite Hh, hdr_after_type, Hhs.
+  intros Inv Hs Hss Ha. destruct Inv as [Hwf Hh Hr Hhs (Hp & Hfp & Hsp & Hdp) Hx Hint].
+  unfold w_write_shape, write_shape_plan. rewrite Hh, hdr_after_type, Hhs, Hint. cbn [app].
   destruct ss as [|s0 ss'].
   - (* first write: header reserved at offset 0, then the record *)
     change (st_eqb TNull TNull) with true. cbn [negb andb].
@@ -245,7 +247,7 @@ Proof.
     assert (Es : ops_of Shp ops = (WSeekStart 0 :: map WriteAll (header_chunks h0))
                                   ++ map WriteAll (record_chunks (type_of s) (wrap_i32 (ws_recnum st)) s)).
     { unfold ops. destruct hs; ops_norm; reflexivity. }
-    constructor; cbn [ws_hdr ws_recnum ws_dirty ws_has_shx].
+    constructor; cbn [ws_hdr ws_recnum ws_dirty ws_has_shx ws_interrupted].
     + exact Hw'.
     + rewrite (hdr_after_snoc [] s eq_refl). reflexivity.
     + rewrite Hr. rewrite zlen_app. change (zlen (@nil shape)) with 0. change (zlen [s]) with 1. lia.
@@ -267,6 +269,7 @@ Proof.
         split; cbn [fst snd]; [rewrite app_nil_r; reflexivity|rewrite header_bytes_len; reflexivity].
       * assert (Ex : ops_of Shx ops = []) by (unfold ops; ops_norm; reflexivity).
         rewrite B2, Ex. exact Hx.
+    + reflexivity.
   - (* later write of the file's type: append *)
     cbn [accepts_type] in Ha. pose proof (Forall_inv Hss) as Hs0. cbn beta in Hs0.
     replace (st_eqb (type_of s0) TNull) with false
@@ -281,7 +284,7 @@ Proof.
     assert (Hne : records_from 1 (s0 :: ss') <> []).
     { cbn [records_from]. intros E. apply app_eq_nil in E. destruct E as [E _]. revert E. apply record_bytes_nonempty. }
     pose proof (hdr_slot_nonempty _ _ Hsp Hne) as Hl100.
-    constructor; cbn [ws_hdr ws_recnum ws_dirty ws_has_shx].
+    constructor; cbn [ws_hdr ws_recnum ws_dirty ws_has_shx ws_interrupted].
     + exact Hw'.
     + rewrite Hh. change (s0 :: ss' ++ [s]) with ((s0 :: ss') ++ [s]).
       rewrite (hdr_after_snoc (s0 :: ss') s) by (cbn [accepts_type]; apply st_eqb_eq; exact Ha). reflexivity.
@@ -302,6 +305,7 @@ Proof.
         rewrite index_from_app, index_from_single. apply bp_append. exact Hfx.
       * assert (Ex : ops_of Shx ops = []) by (unfold ops; ops_norm; reflexivity).
         rewrite B2, Ex. exact Hx.
+    + reflexivity.
 Qed.
 
 (** ** finalize *)
@@ -320,7 +324,7 @@ Lemma finalize_step hs st w ss : WInv hs st w ss ->
 Proof.
   intros Inv. unfold w_finalize. destruct (ws_dirty st) eqn:Hd; cbn [negb].
   2:{ exists st, w. split; [reflexivity|]. split; [exact Inv|exact Hd]. }
-  destruct Inv as [Hwf Hh Hr Hhs (Hp & Hfp & Hsp & Hdp) Hx].
+  destruct Inv as [Hwf Hh Hr Hhs (Hp & Hfp & Hsp & Hdp) Hx Hint].
   set (ops := finalize_ops st).
   assert (Hopswf : Forall (fun o => op_wf (snd o)) ops).
   { unfold ops, finalize_ops. rewrite Hhs. destruct hs; wf_ops. }
@@ -328,7 +332,7 @@ Proof.
   do 2 eexists. split; [reflexivity|]. split; [|reflexivity].
   assert (Es : ops_of Shp ops = WSeekStart 0 :: map WriteAll (header_chunks (final_hdr ss)) ++ [WSeekEnd; WFlush]).
   { unfold ops, finalize_ops. rewrite Hhs, (final_header_inv st ss Hh). destruct hs; ops_norm; reflexivity. }
-  constructor; cbn [ws_hdr ws_recnum ws_dirty ws_has_shx]; auto.
+  constructor; cbn [ws_hdr ws_recnum ws_dirty ws_has_shx ws_interrupted]; auto.
   - exists (header_bytes (final_hdr ss)). split; [|split; [right; apply header_bytes_len|]].
     + rewrite B1, Es. apply (bp_finalize Hp); assumption.
     + intros _. split; [reflexivity|]. rewrite F1, Es.
@@ -404,7 +408,7 @@ Lemma drop_files hs st w ss : WInv hs st w ss ->
   d_flushed (w_shp (w_drop st w)) = true.
 Proof.
   intros Inv. unfold w_drop. destruct (finalize_step hs st w ss Inv) as (st1 & w1 & E & Inv1 & Hd). rewrite E. cbn [snd].
-  destruct Inv1 as [_ _ _ _ (Hp & [Hb _] & _ & Hdp) Hx].
+  destruct Inv1 as [_ _ _ _ (Hp & [Hb _] & _ & Hdp) Hx _].
   destruct (Hdp Hd) as [-> Hfl]. cbn [bp_of fst] in Hb. split; [exact Hb|]. split; [|exact Hfl].
   destruct hs.
   - destruct Hx as (Hxh & [Hbx _] & _ & Hdx). destruct (Hdx Hd) as [-> _]. exact Hbx.
@@ -459,7 +463,7 @@ Proof.
   rewrite E in E0. injection E0 as _ <- <-.
   destruct (finalize_step hs st w _ Inv) as (st1 & w1 & E1 & Inv1 & Hd).
   exists st1, w1. split; [exact E1|]. split; [exact Hd|].
-  destruct Inv1 as [_ _ _ _ (Hp & [Hb _] & _ & Hdp) Hx].
+  destruct Inv1 as [_ _ _ _ (Hp & [Hb _] & _ & Hdp) Hx _].
   destruct (Hdp Hd) as [-> Hfl]. cbn [bp_of fst] in Hb. split; [exact Hb|]. split; [exact Hfl|].
   destruct hs.
   - destruct Hx as (Hxh & [Hbx _] & _ & Hdx). destruct (Hdx Hd) as [-> Hflx]. split; [exact Hbx|exact Hflx].
